@@ -322,6 +322,10 @@ class XformRelay(Actor):
             self.stats["refused_type"] += 1
             if self.refuse_mode == "servfail":
                 self._servfail(client, q)
+            elif self.refuse_mode == "nodata":
+                # "no such data": NOERROR, the question echoed, no records (what a resolver says about a type it filters out)
+                hdr = struct.pack(">HHHHHH", q.id, 0x8180, 1, 0, 0, 0)
+                self.send(53, client, hdr + proto.encode_name(labels) + struct.pack(">HH", t, c), self.latency)
             return
         nl = []
         for l in labels:
